@@ -405,6 +405,20 @@ int main(int argc, char** argv) {
         HC_TRY(churn_ints(3000));
         if (hc_exc[0]) { static char later[96]; snprintf(later, sizeof later, "later:%s", hc_exc); hc_exc = later; } else hc_exc = saved;
       }
+      else if (!strncmp(what, "zt_", 3)) {
+        /* a Tuple that was allocated but never constructed (zeroed memory: what resize of a List of Tuples, or alloc, hands out):
+           it is an empty Tuple - every position is out of bounds, and saying so does not touch it */
+        var z = alloc_raw(Tuple); const char* w2 = what + 3;
+        if      (!strcmp(w2, "get"))    HC_TRY(get(z, $I(0)));
+        else if (!strcmp(w2, "getneg")) HC_TRY(get(z, $I(-1)));
+        else if (!strcmp(w2, "set"))    HC_TRY(set(z, $I(0), e1));
+        else if (!strcmp(w2, "pop"))    HC_TRY(pop(z));
+        else if (!strcmp(w2, "popat"))  HC_TRY(pop_at(z, $I(0)));
+        else if (!strcmp(w2, "pushat")) HC_TRY(push_at(z, e1, $I(1)));
+        else { fprintf(stderr, "unknown bad op %s\n", what); return 9; }
+        if (!hc_exc[0] || len(z) != 0) hc_exc = "none-or-changed";
+        dealloc_raw(z);
+      }
       else if (!strncmp(what, "alien_", 6)) {
         /* an operation of a class the object's type does not implement (the object: a Table): ClassError, for every dispatcher */
         const char* w2 = what + 6;
